@@ -579,5 +579,15 @@ pub fn gen(r: &mut Rng, thorough: bool, count: Option<usize>) -> Vec<Value> {
         else if i % 8 == 3 { out.push(gen_rekey_case(&mut rr, i as u64)); }
         else { out.push(gen_case(&mut rr, i as u64, thorough)); }
     }
+    // the coverage-gap families (COVERAGE.md rows 3, 4, 13, 14, 16), appended so that the ids above keep their cases
+    let mult = if thorough { 8 } else { 1 };
+    let mut id = n as u64;
+    let mut next = |out: &mut Vec<Value>, c: Value| { out.push(c); };
+    for _ in 0..(30 * mult) { let mut rr = r.fork(); next(&mut out, super::gen2::gen_keyops_case(&mut rr, id, thorough)); id += 1; }
+    for _ in 0..(8 * mult) { let mut rr = r.fork(); next(&mut out, super::gen2::gen_copy_case(&mut rr, id)); id += 1; }
+    for _ in 0..(8 * mult) { let mut rr = r.fork(); next(&mut out, super::gen2::gen_remove_case(&mut rr, id)); id += 1; }
+    for _ in 0..(4 * mult) { let mut rr = r.fork(); next(&mut out, super::gen2::gen_migrate_case(&mut rr, id)); id += 1; }
+    for k in 0..(6 * mult) { let mut rr = r.fork(); next(&mut out, super::gen2::gen_busy_case(&mut rr, id, k)); id += 1; }
+    for k in 0..8 { let mut rr = r.fork(); next(&mut out, super::gen2::gen_logger_case(&mut rr, id, k)); id += 1; }
     out
 }
